@@ -101,6 +101,14 @@ fn variants(t: &mut Tape, plan: &XzPlan) -> Vec<(XzPlan, String, String)> {
         p.ov_fflags = Some(fl);
         // check field size follows the low nibble, which is unchanged
         v.push((p, "reserved_stream_flag".to_string(), format!("stream flags {:02x} {:02x}", fl[0], fl[1])));
+        // the reserved bits on one side only (the other side carries the regular flags)
+        let mut p = plan.clone();
+        p.ov_hflags = Some(fl);
+        p.ov_fflags = Some([0, plan.check_id]);
+        v.push((p, "reserved_stream_flag".to_string(), format!("stream flags {:02x} {:02x} in the header only", fl[0], fl[1])));
+        let mut p = plan.clone();
+        p.ov_fflags = Some(fl);
+        v.push((p, "reserved_stream_flag".to_string(), format!("stream flags {:02x} {:02x} in the footer only", fl[0], fl[1])));
     }
     let whole = build_xz(plan).bytes;
     {
@@ -168,7 +176,7 @@ impl Property for C18 {
         "fault_enumeration"
     }
     fn rule(&self) -> &'static str {
-        "per seeded valid file (0-6 blocks, check None/CRC32/CRC64) every unsupported feature is substituted in turn with all CRCs, check-field sizes and SHA-256 values consistent: the 13 other check IDs, filter IDs 0x00-0x0B/0x20/0x22/0x4000000000000000-range/random alone and in front of LZMA2, each reserved block-flag bit, reserved stream-flag bits in header+footer, a second stream, stream padding; one evaluation = one such file through xz_decompress, which must return Err; every variant is distinct (scenario hash) and non-trivial by construction; enumeration is complete per file for the listed feature table"
+        "per seeded valid file (0-6 blocks, check None/CRC32/CRC64) every unsupported feature is substituted in turn with all CRCs, check-field sizes and SHA-256 values consistent: the 13 other check IDs, filter IDs 0x00-0x0B/0x20/0x22/0x4000000000000000-range/random alone and in front of LZMA2, each reserved block-flag bit, reserved stream-flag bits in header+footer / header only / footer only, a second stream, stream padding; one evaluation = one such file through xz_decompress, which must return Err; every variant is distinct (scenario hash) and non-trivial by construction; enumeration is complete per file for the listed feature table"
     }
     fn runs(&self, tier: Tier) -> u64 {
         match tier {
